@@ -9,6 +9,11 @@ between a baseline run and runs that differ in exactly one respect that must not
   cwd         another working directory (sub-directory with ../ paths, absolute paths)
   order       another command-line order of the same input files
   other-file  the file compiled alone vs. together with other files in one invocation
+Besides unrelated partner files the "other files" are whole other projects: several directories whose
+main files each `#include` a file of the *same name* (sibling, sub-path, ../ path, or one of them through
+-I) with other contents, and one tree whose top file includes both projects. The cwd variation also runs
+from a directory that holds unrelated files named exactly like every include of the input (found beside
+the including file or through -I): they are no input and must not be read.
 `--replay <file>` re-runs the two runs of a recorded case."""
 import json
 import os
@@ -43,9 +48,9 @@ def stem_of_input(path):
     return os.path.splitext(os.path.basename(path))[0]
 
 
-def _abs_run(files, mains, args_extra, include_dirs, patch, hashseed, foreign_cwd):
+def _abs_run(files, mains, args_extra, include_dirs, patch, hashseed, foreign_cwd, cwd_rel="."):
     """as frontends.python_outputs, with every path on the command line absolute; the working
-    directory is the scratch root or (foreign_cwd) an unrelated directory"""
+    directory is the scratch root (or its sub-directory cwd_rel) or (foreign_cwd) an unrelated directory"""
     root = common.scratch("abs")
     try:
         F.materialise(files, root)
@@ -59,7 +64,9 @@ def _abs_run(files, mains, args_extra, include_dirs, patch, hashseed, foreign_cw
             args += ["--patch", os.path.join(root, patch)]
         args += ["--python_out", out, "--cpp_out", out, "--cpp_full_out", out]
         paths = [os.path.join(root, m) for m in mains]
-        r = F.compile_files(paths, args, cwd="/" if foreign_cwd else root, timeout=TIMEOUT, hashseed=hashseed)
+        cwd = os.path.normpath(os.path.join(root, cwd_rel))
+        os.makedirs(cwd, exist_ok=True)
+        r = F.compile_files(paths, args, cwd="/" if foreign_cwd else cwd, timeout=TIMEOUT, hashseed=hashseed)
         outputs = {}
         for dp, _, fns in os.walk(out):
             for fn in fns:
@@ -77,7 +84,7 @@ def run_once(files, mains, p):
     extra = list(p.get("args_extra", []))
     if p.get("abs"):
         return _abs_run(files, mains, extra, p.get("include_dirs", []), p.get("patch"), p.get("hashseed", "0"),
-                        p.get("abs") == "foreign")
+                        p.get("abs") == "foreign", cwd)
     if p.get("patch"):
         extra += ["--patch", os.path.relpath(p["patch"], cwd)]
     r = F.python_outputs(files, mains, args_extra=extra, cwd_rel=cwd, hashseed=p.get("hashseed", "0"),
@@ -164,8 +171,11 @@ def split_inputs(rng, n):
         sp = F.split_files(t, rng, 2 + (i // len(F.SPLIT_STYLES)) % 4, style)
         files = dict(sp["files"])
         files["unrelated/other.prophy"] = S.to_prophy(others[i])
+        files, ndecoys = add_shadow(files, sp["include_dirs"])
+        amb, via_i, _ = include_facts(files, sp["include_dirs"], skip_dir=SHADOW)
         yield {"input": "split-" + style, "files": files, "mains": list(sp["order"]), "main": sp["main"],
-               "other": ["unrelated/other.prophy"], "base": {"include_dirs": list(sp["include_dirs"])}}
+               "other": ["unrelated/other.prophy"], "base": {"include_dirs": list(sp["include_dirs"])}, "shadow": ndecoys > 0,
+               "facts": {"ambiguous_include_strings": len(amb), "include_strings_through_I": len(via_i), "decoys": ndecoys}}
 
 
 def isar_inputs(rng, n):
@@ -191,6 +201,243 @@ def isar_inputs(rng, n):
             base["patch"] = "m.patch"
         yield {"input": "isar", "files": files, "mains": ["m.xml"], "other": ["other.xml"], "base": base}
         made += 1
+
+
+# ---- include resolution (what the property's "inputs" are) and files that are *not* inputs
+
+_INCLUDE_RE = re.compile(r'^\s*#include\s+"([^"\n]*)"', re.M)
+SHADOW = "shadowcwd"          # a working directory that holds same-named files which are no inputs
+_RETYPE = {"u8": "u16", "u16": "u32", "u32": "u64", "u64": "u8", "i8": "i16", "i16": "i32", "i32": "i64", "i64": "i8",
+           "float": "double", "double": "float"}
+_RETYPE_RE = re.compile(r"\b(%s)\b" % "|".join(_RETYPE))
+
+
+def include_strings(text):
+    return _INCLUDE_RE.findall(text)
+
+
+def resolve(files, including, leaf, include_dirs):
+    """the file (key of `files`) the documented lookup gives for `#include "leaf"` written in file
+    `including`: the including file's directory first, then the -I directories in order; None: not found.
+    Only used to describe the generated inputs (coverage), never as an oracle."""
+    for d in [os.path.dirname(including)] + [("" if x == "." else x) for x in include_dirs]:
+        q = os.path.normpath(os.path.join(d, leaf))
+        if q in files:
+            return q
+    return None
+
+
+def include_facts(files, include_dirs, skip_dir=None):
+    """-> (include strings that denote different files depending on the including file,
+           include strings found only through -I, all (including file, string, resolved file))"""
+    by_leaf = {}
+    via_i = set()
+    edges = []
+    for path in sorted(files):
+        if skip_dir and (path == skip_dir or path.startswith(skip_dir + "/")):
+            continue
+        for leaf in include_strings(files[path]):
+            tgt = resolve(files, path, leaf, include_dirs)
+            edges.append((path, leaf, tgt))
+            if tgt is not None:
+                by_leaf.setdefault(leaf, set()).add(tgt)
+            if tgt is not None and tgt != os.path.normpath(os.path.join(os.path.dirname(path), leaf)):
+                via_i.add(leaf)
+    return sorted(k for k, v in by_leaf.items() if len(v) > 1), sorted(via_i), edges
+
+
+def retype(text, times=1):
+    """another valid schema with the same includes, structure and names: every builtin numeric type is
+    exchanged for another one (u8 -> u16 -> u32 -> u64 -> u8, ...), `times` times"""
+    for _ in range(times):
+        text = "\n".join(ln if ln.lstrip().startswith("#") else _RETYPE_RE.sub(lambda m: _RETYPE[m.group(1)], ln)
+                         for ln in text.split("\n"))
+    return text
+
+
+def decoy_text(text, tag):
+    """retype(text) plus one more constant: whatever is generated from a file that (wrongly) includes the
+    decoy differs, or does not compile"""
+    return retype(text) + "\nconst DECOY_%s = 77;\n" % re.sub(r"\W", "_", tag).upper()
+
+
+def add_shadow(files, include_dirs=()):
+    """files + for every include string of every file a decoy SHADOW/<string> (a file of that name which
+    is neither beside an including file nor in a -I directory). -> (files, number of decoys)"""
+    out = dict(files)
+    n = 0
+    for path in sorted(files):
+        for leaf in include_strings(files[path]):
+            q = os.path.normpath(os.path.join(SHADOW, leaf))
+            if not q.startswith(SHADOW + "/") or q in out:
+                continue        # ../ strings that leave the directory denote real input files
+            tgt = resolve(files, path, leaf, include_dirs)
+            out[q] = decoy_text(files[tgt] if tgt else "", leaf)
+            n += 1
+    return out, n
+
+
+def shadow_pairs(b):
+    """cwd variations: the same command from the directory that holds the decoys (relative and absolute paths)"""
+    return [("cwd", b, dict(b, cwd=SHADOW)), ("cwd", b, dict(b, cwd=SHADOW, abs="root"))]
+
+
+def _place(sp, main_path, inc_dir=None, base_dir=""):
+    """the files of a frontends.split_files result: the main file renamed/moved to `main_path`, the other
+    files moved below `inc_dir` (default: they stay beside the main file, below `base_dir`); include
+    lines that name the main file follow the renaming. -> (files, -I directories)"""
+    old_main = os.path.basename(sp["main"])
+    new_main = os.path.basename(main_path)
+    files = {}
+    for p, text in sp["files"].items():
+        text = _INCLUDE_RE.sub(lambda m: m.group(0).replace(old_main, new_main), text)
+        if p == sp["main"]:
+            files[main_path] = text
+        else:
+            files[os.path.normpath(os.path.join(inc_dir if inc_dir is not None else base_dir, p))] = text
+    where = inc_dir if inc_dir is not None else base_dir
+    return files, [os.path.normpath(os.path.join(where, d)) for d in sp["include_dirs"]]
+
+
+def _rewrite_includes(text, fn):
+    return _INCLUDE_RE.sub(lambda m: m.group(0).replace('"%s"' % m.group(1), '"%s"' % fn(m.group(1))), text)
+
+
+PROJECT_LAYOUTS = ("sibling", "subpath", "one-through-I", "sibling-chain", "updir", "subdirs", "tree")
+PROJECT_DIRS = (["pa", "pb", "pc"], ["pa", "pa/inner", "pb"], ["x/proj", "y/proj", "z/proj"], ["pb", "pa"])
+
+
+def project_inputs(rng, n):
+    """several projects in different directories; the main file of each includes files that have the same
+    names in every project (the split of a schema into part0.prophy, part1.prophy, ...) and other contents.
+    Compiling the main files of all projects in one invocation must give what compiling each alone gives.
+
+    layouts   sibling        the included files lie beside the main file (2 files per project)
+              sibling-chain  the same with up to 4 files per project (includes of includes)
+              subpath        the included files lie in <project>/inc and are included as "inc/partN.prophy"
+              updir          main file in <project>/src, includes in <project>/common, written "../common/partN.prophy"
+              one-through-I  the included files of the first project lie in shared/ (found through -I shared),
+                             those of the other projects beside their main files
+              subdirs        frontends.split_files 'subdirs' per project (relative paths and -I look-ups mixed)
+              tree           sibling, distinct declaration names per project, plus a top file in the root that
+                             includes the main files of two projects: the same include string is used from two
+                             directories inside one include tree
+    Every other round (not for tree) the projects are clones: the files of the first project with the numeric
+    types exchanged (retype), i.e. exactly the same names and include lines with other definitions, so that
+    taking the file of the wrong project compiles and silently changes the output."""
+    made = 0
+    guard = 0
+    while made < n and guard < 50 * n:
+        guard += 1
+        layout = PROJECT_LAYOUTS[made % len(PROJECT_LAYOUTS)]
+        dirs = list(PROJECT_DIRS[(made // len(PROJECT_LAYOUTS)) % len(PROJECT_DIRS)])
+        k = 2 + (made // 2) % 2
+        dirs = dirs[:k]
+        tree = layout == "tree"
+        clone = not tree and (made // len(PROJECT_LAYOUTS)) % 2 == 1
+        files, mains, include_dirs, tops, owner = {}, [], [], [], {}
+        ok = True
+        for i, d in enumerate(dirs):
+            # the same prefix with a fresh counter per project: the same names with other definitions
+            ts = text_schemas(random.Random(rng.randint(0, 1 << 30)), 1, "T%d" % i if tree else "Q", min_decls=3)
+            if not ts:
+                ok = False
+                break
+            t = ts[0]
+            tops.append(t)
+            r = random.Random(rng.randint(0, 1 << 30))
+            if clone and i > 0:
+                sp = dict(sp0, files={p: retype(x, i) for p, x in sp0["files"].items()})
+            elif layout == "subdirs":
+                sp = F.split_files(t, r, 2 + made % 3, "subdirs")
+            else:
+                style = ("chain", "diamond", "random")[(made // len(PROJECT_LAYOUTS) + i) % 3]
+                sp = F.split_files(t, r, 2 if layout == "sibling" else 2 + (made + i) % 3, style)
+            if i == 0:
+                sp0 = sp
+            if len(sp["files"]) < 2:
+                ok = False
+                break
+            stem = "m%d" % i
+            if layout == "subpath":
+                fs, inc = _place(sp, os.path.join(d, stem + ".prophy"), inc_dir=os.path.join(d, "inc"))
+                fs = {p: (_rewrite_includes(x, lambda s: "inc/" + s) if p == os.path.join(d, stem + ".prophy") else x)
+                      for p, x in fs.items()}
+            elif layout == "updir":
+                mp = os.path.join(d, "src", stem + ".prophy")
+                fs, inc = _place(sp, mp, inc_dir=os.path.join(d, "common"))
+                fs = {p: (_rewrite_includes(x, lambda s: "../common/" + s) if p == mp else x) for p, x in fs.items()}
+            elif layout == "one-through-I" and i == 0:
+                fs, inc = _place(sp, os.path.join(d, stem + ".prophy"), inc_dir="shared")
+                inc = inc + ["shared"]
+            else:
+                fs, inc = _place(sp, os.path.join(d, stem + ".prophy"), base_dir=d)
+            if set(fs) & set(files):
+                ok = False
+                break
+            files.update(fs)
+            owner.update({p: i for p in fs})
+            mains.append([p for p in fs if os.path.basename(p) == stem + ".prophy"][0])
+            include_dirs += [x for x in inc if x not in include_dirs]
+        if not ok:
+            continue
+        if any(tgt is not None and owner[tgt] != owner[path] for path, _, tgt in include_facts(files, include_dirs)[2]):
+            continue    # with the -I directories of all projects an include of one project denotes a file of another
+        base = {"include_dirs": include_dirs}
+        stems = [stem_of_input(m) for m in mains]
+        rev = list(reversed(mains))
+        sep = dict(base, mains=list(mains), separate=True)
+        pairs = []
+        if tree:
+            top = "".join('#include "%s"\n' % m for m in mains[:2]) + \
+                "\nstruct TreeTop\n{\n    u8 a;\n    %s b;\n};\n" % tops[1][1]
+            files["top.prophy"] = top
+            joint = ["top.prophy"] + mains
+            pairs.append(("other-file", sep, dict(base, mains=joint, select=stems)))
+            pairs.append(("other-file", sep, dict(base, mains=rev + ["top.prophy"], select=stems)))
+            pairs.append(("other-file", dict(base, mains=["top.prophy"]), dict(base, mains=rev + ["top.prophy"], select=["top"])))
+        else:
+            pairs.append(("other-file", sep, dict(base, mains=list(mains))))
+            pairs.append(("other-file", sep, dict(base, mains=rev)))
+            pairs.append(("order", dict(base, mains=list(mains)), dict(base, mains=rev)))
+            if k > 2:
+                rot = mains[1:] + mains[:1]
+                pairs.append(("other-file", sep, dict(base, mains=rot)))
+        files, ndecoys = add_shadow(files, include_dirs)
+        if ndecoys:
+            pairs += shadow_pairs(dict(base, mains=(["top.prophy"] if tree else []) + list(mains)))
+        amb, via_i, _ = include_facts(files, include_dirs, skip_dir=SHADOW)
+        yield {"input": "projects-" + layout, "layout": layout + (" (clones)" if clone else ""), "files": files, "mains": mains, "base": base, "pairs": pairs,
+               "facts": {"ambiguous_include_strings": len(amb), "include_strings_through_I": len(via_i), "decoys": ndecoys}}
+        made += 1
+
+
+def incdir_inputs(rng, n):
+    """one schema split into a main file in src/ and the files it includes in inc/ (given with -I inc, named
+    by their bare file names), or spread over sub-directories (split style 'subdirs'); compiled from the
+    project root and from a directory that holds other files with the names of the includes"""
+    ts = text_schemas(rng, n, "V", min_decls=3)
+    for i, t in enumerate(ts):
+        r = random.Random(rng.randint(0, 1 << 30))
+        if i % 3 == 2:
+            sp = F.split_files(t, r, 2 + i % 4, "subdirs")
+            files, include_dirs = dict(sp["files"]), list(sp["include_dirs"])
+            main, layout = sp["main"], "subdirs"
+        else:
+            sp = F.split_files(t, r, 2 + i % 4, ("chain", "diamond", "random")[i % 3])
+            main = ["src/vmain.prophy", "vmain.prophy"][(i // 3) % 2]
+            files, include_dirs = _place(sp, main, inc_dir="inc")
+            include_dirs = include_dirs + ["inc"]
+            layout = "main in %s, includes in inc/ through -I" % (os.path.dirname(main) or "the root")
+        if len(files) < 2:
+            continue
+        base = {"include_dirs": include_dirs}
+        b = dict(base, mains=[main])
+        files, ndecoys = add_shadow(files, include_dirs)
+        amb, via_i, _ = include_facts(files, include_dirs, skip_dir=SHADOW)
+        pairs = shadow_pairs(b) + [("cwd", b, dict(b, cwd="elsewhere/empty"))]
+        yield {"input": "incdir", "layout": layout, "files": files, "mains": [main], "base": base, "pairs": pairs,
+               "facts": {"ambiguous_include_strings": len(amb), "include_strings_through_I": len(via_i), "decoys": ndecoys}}
 
 
 def variations(inp, rng, idx):
@@ -221,6 +468,8 @@ def variations(inp, rng, idx):
         other_first = dict(b, mains=inp["other"] + mains)
         other_last = dict(b, mains=mains + inp["other"])
         out.append(("order", other_last, other_first))
+    if inp.get("shadow"):
+        out += shadow_pairs(b)
     return out
 
 
@@ -235,7 +484,8 @@ def compare(files, kind, pb, pv, rb=None):
 
 def make_case(inp, kind, pb, pv, rb, rv, diff):
     return {"kind": "generated files differ between two runs that differ only in: %s" % kind,
-            "variation": kind, "input": inp["input"], "files": inp["files"], "main_files": pb["mains"],
+            "variation": kind, "input": inp["input"], "layout": inp.get("layout"), "include_facts": inp.get("facts"),
+            "files": inp["files"], "main_files": pb["mains"],
             "baseline": pb, "variant": pv, "differing_outputs": diff,
             "baseline_rc": rb["rc"], "variant_rc": rv["rc"], "variant_stderr": rv["stderr"][-800:]}
 
@@ -280,6 +530,8 @@ def main():
     inputs += list(single_inputs(rng, 40 * m))
     inputs += list(split_inputs(rng, 40 * m))
     inputs += list(isar_inputs(rng, 20 * m))
+    inputs += list(project_inputs(rng, 24 * m))
+    inputs += list(incdir_inputs(rng, 12 * m))
     jobs = []
     for idx, inp in enumerate(inputs):
         pairs = inp.get("pairs") or variations(inp, random.Random(chk.seed * 1000003 + idx), idx)
@@ -315,8 +567,11 @@ def main():
     nfiles_hist = {}
     outputs_compared = 0
     sample_done = set()
+    facts = {}
     for (idx, inp, pairs), res in zip(jobs, results):
         per_input[inp["input"]] = per_input.get(inp["input"], 0) + 1
+        for fk, fv in (inp.get("facts") or {}).items():
+            facts["inputs_with_" + fk] = facts.get("inputs_with_" + fk, 0) + (1 if fv else 0)
         not_compiling = False
         for vi, (kind, pb, pv, rb, rv, diff) in enumerate(res):
             if kind == "partner":
@@ -347,6 +602,7 @@ def main():
     chk.coverage["comparisons_per_variation"] = per_var
     chk.coverage["comparisons_per_number_of_input_files"] = nfiles_hist
     chk.coverage["output_files_compared"] = outputs_compared
+    chk.coverage["include_structure"] = facts
     chk.coverage["outcomes"] = {"identical": chk.coverage["evaluations"] - chk.violations - sum(chk.known_hits.values()),
                                 "different": chk.violations + sum(chk.known_hits.values())}
     chk.coverage["rule"] = (
@@ -359,7 +615,12 @@ def main():
         "files of a split (reversed, shuffled) and of two unrelated files; other-file: the file(s) compiled together with an "
         "unrelated file that reuses the same declaration names with other definitions (only the outputs of the original "
         "files are compared), all files of a split in one invocation vs. one invocation per file, the main file alone vs. with "
-        "all files it includes on the command line. Oracle: the {output file name: bytes} maps are equal. Schemas whose "
+        "all files it includes on the command line; projects: 2..3 directories whose main files include files of the same "
+        "names with other contents (beside the main file, in inc/ as \"inc/x\", in ../common, one of them through -I, "
+        "split_files subdirs; tree: a top file including two projects), each main file alone vs. all in one invocation in "
+        "2..3 orders, and the order of these independent main files; incdir: main file in src/ or the root, includes "
+        "through -I inc. cwd for every input with includes additionally: a directory holding decoy files named like every "
+        "include string (relative and absolute command lines). Oracle: the {output file name: bytes} maps are equal. Schemas whose "
         "baseline does not compile are skipped and counted. distinct_nontrivial = distinct (input kind, variation, number of "
         "input files on the variant's command line).")
     chk.assumptions += ["hash seeds, directories and orders are sampled, not exhausted",
